@@ -131,6 +131,11 @@ struct Outcome {
 
 fn check_one(text: &str, cursor: usize, tokens: &Option<Vec<Token>>, rep: &mut Report, case: (u64, u64)) -> Outcome {
     let h = ReplHighlighter::new();
+    check_with(&h, text, cursor, tokens, rep, case)
+}
+
+/// the same judgement on a highlighter value that may have been used before (a REPL keeps one)
+fn check_with(h: &ReplHighlighter, text: &str, cursor: usize, tokens: &Option<Vec<Token>>, rep: &mut Report, case: (u64, u64)) -> Outcome {
     rep.evaluations += 1;
     let got = catch(|| h.highlight(text, cursor).into_owned());
     let mut highlighted = false;
@@ -399,6 +404,27 @@ pub fn run(ctx: &Ctx, rep: &mut Report) {
         rep.count("constructed_texts", 1);
         if any {
             rep.nontrivial(hash_str(&text));
+        }
+        // Part 4: the same text typed left to right into ONE highlighter value, the cursor following the
+        // end of the input as in a REPL; then the cursor walks back over the finished line. What the
+        // highlighter answered before must not influence what it answers now.
+        if index % 4 == 0 {
+            let h = ReplHighlighter::new();
+            let mut ends: Vec<usize> = text.char_indices().map(|(i, _)| i).skip(1).collect();
+            ends.push(text.len());
+            for e in ends {
+                let prefix = &text[..e];
+                let toks = scan(prefix);
+                check_with(&h, prefix, e, &toks, rep, (ctx.shard, index));
+                if e > 0 {
+                    check_with(&h, prefix, e - 1, &toks, rep, (ctx.shard, index));
+                }
+            }
+            let toks = scan(&text);
+            for cursor in (0..=text.len()).rev() {
+                check_with(&h, &text, cursor, &toks, rep, (ctx.shard, index));
+            }
+            rep.count("typed_sessions", 1);
         }
     }
 }
